@@ -12,9 +12,9 @@ use std::collections::BTreeMap;
 use std::sync::atomic::{AtomicUsize, Ordering};
 use std::sync::Mutex;
 
-pub const VERSIONS: [&str; 22] = [
+pub const VERSIONS: [&str; 25] = [
     "<missing>", "", "abc", "1.0", "v1.0.0", "0.14.9", "0.15.0", "0.16.1", "0.16.2", "0.16.3", "0.18.2", "0.19.0", "0.19.1", "0.19.2",
-    "1.0.0", "1.0.1", "2.0.0", "10.0.0", "1.0.0-rc1", "0.16.2-rc1", "0.19.1-rc1", "1.0.0+build5",
+    "1.0.0", "1.0.1", "2.0.0", "10.0.0", "1.0.0-rc1", "0.16.2-rc1", "0.16.2-rc.1", "0.16.1-alpha", "0.16.3-rc1", "0.19.1-rc1", "1.0.0+build5",
 ];
 
 #[derive(Clone, Copy, PartialEq, Eq, Debug)]
@@ -46,7 +46,19 @@ pub fn classify(v: &str) -> VClass {
     if v == "<missing>" {
         return VClass::Unreadable;
     }
-    if v.contains('-') || v.contains('+') {
+    if let Some((triple, pre)) = v.split_once('-') {
+        // semver orders X.Y.Z-pre strictly below X.Y.Z: a pre-release of the minimum (or of anything
+        // below it) is older than the minimum; other pre-releases and build metadata stay undecided
+        if !pre.is_empty() && !triple.contains('+') {
+            if let Some(t) = parse_release(triple) {
+                if t <= (0, 16, 2) {
+                    return VClass::Below;
+                }
+            }
+        }
+        return VClass::Undecided;
+    }
+    if v.contains('+') {
         return VClass::Undecided;
     }
     match parse_release(v) {
@@ -315,7 +327,7 @@ pub fn hist_books(scen: &Scenario, ex: &Explored) -> Vec<HistBook> {
         let mut path = vec![];
         for act in acts_of(scen, ex, i) {
             let pre = decode_book(&s);
-            let o = step(&s, &scen.cfg.chain, &act.sender, &act.funds, &act.msg);
+            let o = crate::scenario::step_act(&s, &scen.cfg.chain, act);
             path.push(act.to_replay());
             let a = match o {
                 Outcome::Accepted(a) => a,
@@ -367,6 +379,8 @@ pub fn hist_books(scen: &Scenario, ex: &Explored) -> Vec<HistBook> {
 pub fn book_scenarios(tier: Tier) -> Vec<Scenario> {
     let mut v = vec![];
     let slim = |m: Menu| Menu { ask_bases: vec!["base", "conv"], ..m };
+    // one book with orders under legacy un-hyphenated ids (their old-format twins keep those ids)
+    v.push(crate::catalogue::with_legacy_seed(scen("B11/P1/F1/R0", Cfg::new(0, 2, ("0.25", "0.25"), "R0"), slim(Menu { prices: vec!["2"], ..menu_p1(1, 1) }), vec![])));
     if tier == Tier::Quick {
         v.push(scen("B11/P1/F1/R0", Cfg::new(0, 2, ("0.25", "0.25"), "R0"), slim(menu_p1(1, 1)), vec![]));
     } else {
@@ -423,6 +437,25 @@ impl MigOut {
             self.samples.extend(o.samples);
         }
     }
+}
+
+/// equality of stored values up to JSON spelling (seeded legacy entries are written by the harness,
+/// whose field order differs from the contract's serializer; entries that are not JSON compare as bytes)
+fn val_eq(a: Option<&Vec<u8>>, b: Option<&Vec<u8>>) -> bool {
+    match (a, b) {
+        (None, None) => true,
+        (Some(x), Some(y)) => {
+            x == y
+                || match (serde_json::from_slice::<Value>(x), serde_json::from_slice::<Value>(y)) {
+                    (Ok(p), Ok(q)) => p == q,
+                    _ => false,
+                }
+        }
+        _ => false,
+    }
+}
+fn sem_eq(a: &Store, b: &Store) -> bool {
+    a.0.len() == b.0.len() && a.0.iter().all(|(k, v)| val_eq(Some(v), b.0.get(k)))
 }
 
 fn store_value(s: &Store) -> Value {
@@ -553,7 +586,7 @@ pub fn judge(chain: &crate::chain::Chain, twin: &Store, native: &Store, version:
         } else if in_window {
             out.c("C15/old-format-bid-converted");
             // differential: the converted bid must be byte-identical to the native one
-            if Some(y) != native.0.get(k) {
+            if !val_eq(Some(y), native.0.get(k)) {
                 out.v("C15", "C15/converted-bid-differs-from-native".into(), format!("converted {} native {:?}", lossy(y), native.0.get(k).map(|v| lossy(v))), doc());
             }
             // independent reference: originals minus sums over the log
@@ -588,7 +621,7 @@ pub fn judge(chain: &crate::chain::Chain, twin: &Store, native: &Store, version:
         if let Outcome::Accepted(na) = do_migrate(&npre, chain, &msg) {
             out.migrate_calls += 1;
             out.c("C15/twin-vs-native-stores-compared");
-            if na.store != *post {
+            if !sem_eq(&na.store, post) {
                 out.v("C15", "C15/migrated-twin-differs-from-migrated-native".into(), "stores differ".into(), doc());
             }
         }
@@ -625,11 +658,11 @@ fn behaves_like_native(scen: &Scenario, migrated: &Store, native_current: &Store
             Act::new(&exec, vec![], Req::ExpireBid { id: k.clone() }),
             Act::new(&exec, vec![], Req::RejectBid { id: k.clone(), size: Some(scen.cfg.increment) }),
         ] {
-            let o1 = step(migrated, &scen.cfg.chain, &act.sender, &act.funds, &act.msg);
-            let o2 = step(native_current, &scen.cfg.chain, &act.sender, &act.funds, &act.msg);
+            let o1 = crate::scenario::step_act(migrated, &scen.cfg.chain, &act);
+            let o2 = crate::scenario::step_act(native_current, &scen.cfg.chain, &act);
             out.c("C15/continuations-compared");
             let same = match (&o1, &o2) {
-                (Outcome::Accepted(a), Outcome::Accepted(b)) => net_of(a) == net_of(b) && a.store == b.store,
+                (Outcome::Accepted(a), Outcome::Accepted(b)) => net_of(a) == net_of(b) && sem_eq(&a.store, &b.store),
                 (Outcome::Refused(_), Outcome::Refused(_)) | (Outcome::Aborted, Outcome::Aborted) => true,
                 _ => false,
             };
@@ -697,7 +730,7 @@ pub fn run_books(tier: Tier, which: &str) -> Result<(MigOut, Vec<(String, crate:
                                     // with no overrides the migrated twin must be the native state itself
                                     out.c("C15/migrated-twin-vs-original-state");
                                     let d = || json!({"kind": "migrate", "store": store_value(&twin), "stored_version": "0.19.0", "migrate": {}, "shape": [0, 0, 0, 0, 0], "native_store": store_value(&h.store), "path": h.path});
-                                    if a.store != h.store {
+                                    if !sem_eq(&a.store, &h.store) {
                                         out.v("C15", "C15/migrated-twin-is-not-the-native-state".into(), "store after migrating the old-format twin differs from the state the history produced natively".into(), d());
                                     }
                                     behaves_like_native(&scen, &a.store, &h.store, &mut out, &d);
@@ -738,7 +771,7 @@ pub fn run_all_logs(tier: Tier) -> MigOut {
     let n = menu.len();
     // a book with one new-format bid and the bid under test
     let cfg = Cfg::new(0, 1, ("0.25", "0.25"), "R0");
-    let sc = scen("all-logs", cfg, Menu { ask_slots: 0, bid_slots: 0, prices: vec!["2"], sizes: vec![1], match_sizes: vec![], reject_sizes: vec![], ask_bases: vec![], two_approvers: false, modifies: vec![], quotes: vec![] }, vec![]);
+    let sc = scen("all-logs", cfg, Menu { ask_slots: 0, bid_slots: 0, prices: vec!["2"], sizes: vec![1], match_sizes: vec![], reject_sizes: vec![], ask_bases: vec![], two_approvers: false, modifies: vec![], quotes: vec![], migrates: vec![] }, vec![]);
     let s0 = crate::engine::initial_store(&sc).expect("instantiate");
     let native_other = json!({"base": {"denom": "base", "amount": "10"}, "accumulated_base": "3", "accumulated_quote": "6", "accumulated_fee": "1", "fee": {"denom": "q1", "amount": "5"},
         "id": crate::scenario::ID_B2, "owner": "buyer2", "price": "2", "quote": {"denom": "q1", "amount": "20"}});
@@ -814,8 +847,8 @@ pub fn run_all_logs(tier: Tier) -> MigOut {
                                             let act = Act::new("buyer1", vec![], Req::CancelBid { id: crate::scenario::ID_A.into() });
                                             let mut nat = native.clone();
                                             nat.0.insert(KEY_VERSION.to_vec(), a.store.0[KEY_VERSION].clone());
-                                            let o1 = step(&a.store, &sc.cfg.chain, &act.sender, &act.funds, &act.msg);
-                                            let o2 = step(&nat, &sc.cfg.chain, &act.sender, &act.funds, &act.msg);
+                                            let o1 = crate::scenario::step_act(&a.store, &sc.cfg.chain, &act);
+                                            let o2 = crate::scenario::step_act(&nat, &sc.cfg.chain, &act);
                                             out.c("C15/continuations-compared");
                                             let same = match (&o1, &o2) {
                                                 (Outcome::Accepted(x), Outcome::Accepted(z)) => net_of(x) == net_of(z),
@@ -883,7 +916,7 @@ pub fn replay(doc: &Value) -> Result<(bool, Vec<String>), String> {
         let mut pre = twin.clone();
         set_version(&mut pre, version);
         if let Outcome::Accepted(a) = do_migrate(&pre, &chain, &parse_migrate("{}").unwrap()) {
-            if a.store != native {
+            if !sem_eq(&a.store, &native) {
                 out.v("C15", "C15/migrated-twin-is-not-the-native-state".into(), String::new(), Value::Null);
             }
             let cfg = Cfg::new(0, 2, ("0.25", "0.25"), "R0");
